@@ -151,4 +151,44 @@ theorem geoRun_match (c : GeoCfg) (iterations : Nat) (draws : List (Nat × Nat))
       refine ⟨id, id, bijOn_id _, rfl, fun p e he => ⟨e, he, ?_⟩⟩
       simp only [Int.sub_self, Int.zero_mul, closeBy]; omega
 
+/-- model III, one pass: the degree pair (w.r.t. the `degree` array) at every position of the
+edge array is unchanged -/
+theorem geoStep_pairs (c : GeoCfg) (hm : c.mode = .III) (st st1 : GeoSt) (d : Nat × Nat)
+    (h : geoStep c st d = some st1) (p : Nat) (e : Nat × Nat) (he : st.edges[p]? = some e) :
+    ∃ e', st1.edges[p]? = some e' ∧
+      (c.degree e'.1, c.degree e'.2) = (c.degree e.1, c.degree e.2) := by
+  rcases geoStep_cases c st st1 d h with rfl | ⟨s, t, k, l, hp, hq, e1, e2, acc, rfl⟩
+  · exact ⟨e, he, rfl⟩
+  · have g1 : st.edges[d.1]? = some (s, t) := by rw [List.getElem?_eq_getElem hp, e1]
+    have g2 : st.edges[d.2]? = some (k, l) := by rw [List.getElem?_eq_getElem hq, e2]
+    simp only [geoAccept, Bool.and_eq_true, condDeg, hm, beq_iff_eq] at acc
+    obtain ⟨⟨-, h1, h2⟩, -⟩ := acc
+    simp only [List.getElem?_set, List.length_set]
+    by_cases c2 : d.2 = p
+    · subst c2; rw [g2] at he; cases he
+      exact ⟨(k, t), by simp [hq], by simp [h2]⟩
+    · by_cases c1 : d.1 = p
+      · subst c1; rw [g1] at he; cases he
+        exact ⟨(s, l), by simp [c2, hp], by simp [h2]⟩
+      · exact ⟨e, by simp [c1, c2, he], rfl⟩
+
+theorem geoRun_pairs (c : GeoCfg) (hm : c.mode = .III) (iterations : Nat)
+    (draws : List (Nat × Nat)) (st st' : GeoSt) (h : geoRun c iterations draws st = some st')
+    (p : Nat) (e : Nat × Nat) (he : st.edges[p]? = some e) :
+    ∃ e', st'.edges[p]? = some e' ∧
+      (c.degree e'.1, c.degree e'.2) = (c.degree e.1, c.degree e.2) := by
+  induction draws generalizing st e with
+  | nil => simp only [geoRun, Option.some.injEq] at h; subst h; exact ⟨e, he, rfl⟩
+  | cons d ds ih =>
+    simp only [geoRun] at h
+    split at h
+    · cases hs : geoStep c st d with
+      | none => simp [hs] at h
+      | some st1 =>
+        simp only [hs, Option.bind_some] at h
+        obtain ⟨e1, g1, q1⟩ := geoStep_pairs c hm st st1 d hs p e he
+        obtain ⟨e2, g2, q2⟩ := ih st1 h e1 g1
+        exact ⟨e2, g2, q2.trans q1⟩
+    · simp only [Option.some.injEq] at h; subst h; exact ⟨e, he, rfl⟩
+
 end Pyunicorn.Random
